@@ -4,8 +4,8 @@ package server
 
 // Contracts for the verifier in /verif (comment-only; see /verif/DESIGN.md §3).
 
-//@ guarded_by server.mutex: locations, cache, compress, compressMinLength, compressContentTypeFilter
-//@ immutable server: mutex
+//@ guarded_by server.mutex: locations, cache, compress, compressMinLength, compressContentTypeFilter, listening, listenAddr, ln, e
+//@ immutable server: mutex, addr, logFormat
 //@ immutable cells(string)
 //@ typeinv server(s) by NewServer: s.mutex != nil
 
@@ -69,14 +69,26 @@ package server
 //@     !strContains(m1, " ") && !strContains(h1, " ") && !strContains(m2, " ") && !strContains(h2, " ")
 //@     && m1 + " " + h1 + " " + u1 == m2 + " " + h2 + " " + u2 ==> m1 == m2 && h1 == h2 && u1 == u2
 
+// The rest of the chain as seen from the cache middleware: elton's Next plus what pike's own proxy
+// middleware is verified to establish before it hands over (NewProxy$1 precall [response-owned]) -
+// the response it leaves in the context was created by this request's goroutine and is unpublished.
+//@ func nextOfCache(c *elton.Context) (err error)
+//@   virtual
+//@   modifies heap, $nexts, $owns
+//@   ensures [once] $nexts == old($nexts) + 1
+//@   ensures [label] c.kv[box("_status")] == old(c.kv[box("_status")]) && c.has[box("_status")] == old(c.has[box("_status")])
+//@   ensures [response-owned] c.has[box("_httpResp")] && typeis(c.kv[box("_httpResp")], "*cache.HTTPResponse") && unbox(c.kv[box("_httpResp")], "*cache.HTTPResponse") != nil
+//@                      ==> $owns[unbox(c.kv[box("_httpResp")], "*cache.HTTPResponse")] == 1
+
 //@ func NewCache$1(c *elton.Context) (err error)
+//@   callsite github.com/vicanso/elton.Context.Next#0: nextOfCache(c)
 //@   requires [ctx]     c != nil
 //@   requires [server]  s != nil
 //@   requires [registry] dispatchersOK()
 //@   requires [notok]   forall x *cache.httpCache :: $tok[x] == 0
 //@   requires [nolocks] nolocks()
 //@   requires [nodebt]  $owed == $sent_total
-//@   modifies heap, $nexts, $clock, $regs, $recv, $recv_total, $owed, $sent, $sent_total, $expbase, $tok, $enc
+//@   modifies heap, $nexts, $clock, $regs, $recv, $recv_total, $owed, $sent, $sent_total, $expbase, $tok, $enc, $owns
 //@   ensures          [token]     forall x *cache.httpCache :: $tok[x] == 0
 //@   ensures_on_panic [token]     forall x *cache.httpCache :: $tok[x] == 0
 //@   ensures          [nodebt]    $owed == $sent_total
@@ -195,6 +207,8 @@ package server
 //@   precall github.com/vicanso/elton.Context.Next#0 [maxage] maxAgeOf(c) != old(maxAgeOf(c)) ==> status == cache.StatusFetching && maxAgeOf(c) > 0
 //@   precall github.com/vicanso/elton.Context.Next#0 [maxage-kept] status != cache.StatusFetching ==> maxAgeOf(c) == old(maxAgeOf(c))
 // C13: the server's compress profile, minimum length and filter are attached to the response
+// C20: the response handed to the rest of the chain is this request's own, not yet published
+//@   precall github.com/vicanso/elton.Context.Next#0 [response-owned] $owns[httpResp] == 1
 //@   precall github.com/vicanso/elton.Context.Next#0 [response-set] c.has[box("_httpResp")] && typeis(c.kv[box("_httpResp")], "*cache.HTTPResponse") && unbox(c.kv[box("_httpResp")], "*cache.HTTPResponse") == httpResp && httpResp != nil
 
 // ---- the responder middleware (C04 Age header, C05 delivery, truthful label) -----------------
